@@ -44,13 +44,14 @@ class AsmRun:
 STEP_LIMIT = 400000
 
 
-def assemble(env, lines, want_listing=False, fs=None):
+def assemble(env, lines, want_listing=False, fs=None, bytes_of=None):
+    """bytes_of: indices of the statements whose emitted bytes are wanted (default: all)"""
     if env.mode == "sym":
-        return _assemble_sym(env, lines, want_listing, fs)
-    return _assemble_native(env, lines, want_listing, fs)
+        return _assemble_sym(env, lines, want_listing, fs, bytes_of)
+    return _assemble_native(env, lines, want_listing, fs, bytes_of)
 
 
-def _assemble_sym(env, lines, want_listing, fs):
+def _assemble_sym(env, lines, want_listing, fs, bytes_of=None):
     it = env.interp
     r = AsmRun()
     Program = it.get("cocoasm.program", "Program")
@@ -58,7 +59,8 @@ def _assemble_sym(env, lines, want_listing, fs):
     it.steps = 0
     it.step_limit = STEP_LIMIT
     old_unroll = it.unroll_limit
-    it.unroll_limit = 5000
+    it.unroll_limit = 70000
+    it.while_limit = 300
     try:
         prog = it.call(Program, [], {})
         try:
@@ -78,7 +80,7 @@ def _assemble_sym(env, lines, want_listing, fs):
             raise
         r.prog = prog
         stmts = it.getattr_(prog, "statements")
-        for s in stmts:
+        for si, s in enumerate(stmts):
             v = StmtView()
             pkg = it.getattr_(s, "code_pkg")
             addr = it.getattr_(pkg, "address")
@@ -89,6 +91,10 @@ def _assemble_sym(env, lines, want_listing, fs):
             ins = it.getattr_(s, "instruction")
             v.is_org = ins.fields["is_origin"]
             v.operand_cls = it.getattr_(s, "operand").cls.name
+            if bytes_of is not None and si not in bytes_of:
+                v.bytes = None
+                r.stmts.append(v)
+                continue
             sub = it.call(Program, [], {})
             it.setattr_(sub, "statements", [s])
             try:
@@ -100,7 +106,7 @@ def _assemble_sym(env, lines, want_listing, fs):
                 r.exc_site = pr.site
                 return r
             r.stmts.append(v)
-        r.image = [b for v in r.stmts for b in v.bytes]
+        r.image = [b for v in r.stmts for b in v.bytes] if bytes_of is None else None
         for k, val in it.getattr_(prog, "symbol_table").items():
             r.symbols[k] = val.fields["int"] if isinstance(val, Obj) and "int" in val.fields else None
         org = it.getattr_(prog, "origin")
@@ -135,7 +141,7 @@ def _native_modules():
     return P
 
 
-def _assemble_native(env, lines, want_listing, fs):
+def _assemble_native(env, lines, want_listing, fs, bytes_of=None):
     P = _native_modules()
     r = AsmRun()
     cwd = os.getcwd()
@@ -170,7 +176,7 @@ def _assemble_native(env, lines, want_listing, fs):
             r.status = "escape"
             return r
         r.prog = prog
-        for s in prog.statements:
+        for si, s in enumerate(prog.statements):
             v = StmtView()
             v.address = s.code_pkg.address.int if not s.code_pkg.address.is_none() else None
             v.size = s.code_pkg.size
@@ -178,6 +184,10 @@ def _assemble_native(env, lines, want_listing, fs):
             v.mnemonic = s.mnemonic
             v.is_org = s.instruction.is_origin
             v.operand_cls = type(s.operand).__name__
+            if bytes_of is not None and si not in bytes_of:
+                v.bytes = None
+                r.stmts.append(v)
+                continue
             sub = P.Program()
             sub.statements = [s]
             try:
@@ -188,7 +198,7 @@ def _assemble_native(env, lines, want_listing, fs):
                 r.exc_msg = "get_binary_array: %s" % e
                 return r
             r.stmts.append(v)
-        r.image = [b for v in r.stmts for b in v.bytes]
+        r.image = [b for v in r.stmts for b in v.bytes] if bytes_of is None else None
         for k, val in prog.symbol_table.items():
             r.symbols[k] = getattr(val, "int", None)
         r.origin = prog.origin.int if not prog.origin.is_none() else None
